@@ -158,6 +158,9 @@ pub fn asm_event(inst: &SInst, ctx: &[SInst], tag: &str) -> Value {
         Err(p) => base("panic", json!([]), "none", json!([]), jpanic(&p)),
         Ok(ws) => {
             let mut bin: Vec<u32> = HEADER.to_vec();
+            // (declarations count wherever they stand: every third binary with declarations opens a function first)
+            thread_local! { static ASM_F: std::cell::Cell<u64> = std::cell::Cell::new(0); }
+            let lead = if !ctx.is_empty() && ASM_F.with(|n| { n.set(n.get() + 1); n.get() % 3 == 0 }) { bin.extend([(5 << 16) | 54, 9001, 9002, 0, 9003]); 1 } else { 0 };
             for c in ctx { bin.extend(c.encode()); }
             bin.extend(ws.iter());
             let mut c = Scripted::new(vec![]);
@@ -167,7 +170,7 @@ pub fn asm_event(inst: &SInst, ctx: &[SInst], tag: &str) -> Value {
             let via_bytes = ASM_N.with(|n| { n.set(n.get() + 1); n.get() % 2 == 0 });
             match catch(|| if via_bytes { binary::parse_bytes(words_to_bytes(&bin), &mut c) } else { binary::parse_words(&bin, &mut c) }) {
                 Err(p) => base("ok", jws(&ws), "panic", json!([]), jpanic(&p)),
-                Ok(Ok(())) if c.insts.len() == ctx.len() + 1 => base("ok", jws(&ws), "ok", json!([j_inst(&c.insts[ctx.len()])]), json!([])),
+                Ok(Ok(())) if c.insts.len() == lead + ctx.len() + 1 => base("ok", jws(&ws), "ok", json!([j_inst(&c.insts[lead + ctx.len()])]), json!([])),
                 Ok(other) => base("ok", jws(&ws), "err", json!([]), j_state(&other)),
             }
         }
@@ -544,6 +547,7 @@ fn suite_c14(g: &Gram, out: &mut Out, rng: &mut Rng, n_modules: usize) {
                 let pos = 2 + ctx.decls.len() + 1;   // initialize, header, declarations, OpNop come before the instruction's callback
                 ws.push(1 << 16);
                 ws.extend(inst.encode());
+                if !full { ws.extend(inst.encode()); }   // "one call per instruction": also for the identical instruction repeated
                 ws.push(1 << 16);
                 out.ev(parse_event(&ws, &[], &[], rng.chance(1, 2), "c14-sweep"));
                 if full {
@@ -672,7 +676,9 @@ fn c10_defops(g: &Gram, out: &mut Out, rng: &mut Rng) {
             inst.rid = Some(2);
             let mut ws: Vec<u32> = HEADER.to_vec();
             let mut fresh = 100;
+            if w == 64 && op % 2 == 0 { ws.extend([(5 << 16) | 54, 90, 91, 0, 92]); }     // OpFunction %90 %91 None %92 first
             ws.extend(c10_inst(&json!({"a": "TInt", "id": 1, "w": w}), &mut fresh, 0, rng));
+            if w == 64 && op % 4 == 1 { ws.extend([(5 << 16) | 54, 90, 91, 0, 92]); }     // ... or between type and definition
             ws.extend(inst.encode());
             let mut body = vec![2u32, 77];
             for _ in 0..2 { for _ in 0..n.max(1) { body.push(rng.below(1000) as u32); } body.push(78); }
